@@ -24,7 +24,7 @@ ROOT = os.path.dirname(os.path.dirname(os.path.abspath(__file__)))
 REPO = os.environ.get("VERIF_REPO", "/repo")
 VX = os.path.join(ROOT, "tools/vx/target/release/vx")
 WORK = os.environ.get("VERIF_WORK", os.path.join(ROOT, "work"))
-HEADER = "use vstd::prelude::*;\nuse vstd::std_specs::ops::*;\nuse std::collections::VecDeque;\nverus! {\n"
+HEADER = "use vstd::prelude::*;\nuse vstd::std_specs::ops::*;\nuse std::collections::VecDeque;\nverus! {\nglobal size_of usize == 8;  // the checks run on (and claim) a 64-bit target\n"
 FOOTER = "\n} // verus!\nfn main() {}\n"
 
 
